@@ -23,7 +23,7 @@ from . import pframe
 ID = "C06"
 LEAN_MODULE = "EEM.Props.C06"
 BUILD_TARGETS = ["EEM.Props.C06"]
-MODEL_TARGETS = ["EEM.Model.Dst", "EEM.Model.PredictFrame", "EEM.Proto"]
+MODEL_TARGETS = ["EEM.Model.DstSrc", "EEM.Model.Dst", "EEM.Model.PredictFrame", "EEM.Proto"]
 DESIGN_REF = "DESIGN.md §5 C06"
 
 QUICK_ZONES = ["America/Chicago", "Europe/London", "Australia/Sydney", "America/Sao_Paulo", "America/Havana", "Australia/Lord_Howe",
@@ -302,7 +302,41 @@ def run(ctx):
         pexpect.append(pframe.canon_out(o, has_obs, combo.split("__")))
         sigs.add(("pframe", n > 3, has_obs, bool(np.isinf(T).any())))
 
+    # ---- function level: the literal transcription vs the real _transform_dst on arbitrary index lists (also ones no zone
+    # produces: several operations per frame in any order, operations on neighbouring days, out-of-range hours)
+    slines, sexpect = [], []
+    if internal_ok:
+        for k in range(int((150 if not thorough else 3000) * scale)):
+            D = rng.choice([1, 2, 3, 5, 9])
+            days = list(range(D))
+            rng.shuffle(days)
+            n_ops = rng.randrange(0, min(D, 4) + 1)
+            interp, mean = [], []
+            for dd in sorted(days[:n_ops]):
+                if rng.random() < 0.5:
+                    interp.append((dd, rng.choice([0, 1, 2, 3, 22, 23])))
+                else:
+                    mean.append((dd, rng.choice([0, 1, 2, 22, 23])))
+            pred = np.arange(24 * D, dtype=float) * 1.5 + 0.25
+            try:
+                out = _transform_dst(pred.copy(), (list(interp), list(mean)))
+                exp = "ok " + " ".join(fhex(x) for x in out)
+            except (IndexError, StopIteration):
+                exp = "raise"
+            except Exception as e:  # noqa
+                exp = "raise:" + type(e).__name__
+            res["evaluations"] += 1
+            enc = lambda ps: ",".join(f"{a}:{b}" for a, b in ps) if ps else "-"
+            slines.append(f"dstsrc {enc(interp)} {enc(mean)} " + " ".join(fhex(x) for x in pred))
+            sexpect.append(exp)
+            sigs.add(("dstsrc", len(interp), len(mean), exp == "raise"))
+
     if ctx.get("model_ok", True):
+        souts = core.run_driver(slines) if slines else []
+        for o_, e_, l_ in zip(souts, sexpect, slines):
+            res["traces"] += 1
+            if o_.strip() != e_.strip():
+                res["disagreements"].append(dict(op="dstsrc", line=l_[:120], lean=o_[:200], impl=e_[:200]))
         pouts = core.run_driver(plines)
         for o_, e_ in zip(pouts, pexpect):
             res["traces"] += 1
@@ -320,9 +354,16 @@ def run(ctx):
             if not o.startswith("ok"):
                 res["disagreements"].append(dict(zone=zone, transition=t, lean=o[:80], impl="ok"))
                 continue
-            vals = [unhex(v) for v in o.split(" | ")[1].split()]
+            parts = o.split(" | ")
+            vals = [unhex(v) for v in parts[1].split()]
             if len(vals) != len(impl[1]) or any(a != b for a, b in zip(vals, impl[1])):
-                res["disagreements"].append(dict(zone=zone, transition=t, ops=o.split(" | ")[0][:80], lean_len=len(vals), impl_len=len(impl[1])))
+                res["disagreements"].append(dict(zone=zone, transition=t, ops=parts[0][:80], lean_len=len(vals), impl_len=len(impl[1])))
+            # the literal transcription of the source's algorithm (EEM.Model.DstSrc) on the same index lists
+            if len(parts) > 2:
+                svals = None if parts[2].strip() == "raise" else [unhex(v) for v in parts[2].split()]
+                if svals is None or len(svals) != len(impl[1]) or any(a != b for a, b in zip(svals, impl[1])):
+                    res["disagreements"].append(dict(op="dst.source_transcription", zone=zone, transition=t, ops=parts[0][:80],
+                                                     lean_len=None if svals is None else len(svals), impl_len=len(impl[1])))
     res["samples"] = [dict(zone=m_[0], transition_utc=m_[1], rows=m_[3]) for m_ in metas[:3]]
     res["distinct_nontrivial"] = len(sigs)
     res["exhaustive"] = False
